@@ -293,3 +293,8 @@ func Fold(f func(acc, x int) int, xs []int) int {
 	}
 	return acc
 }
+
+// Str and Err receive an interpreted value through a compiled interface type, which is
+// how compiled code can see the methods of an interpreted type (through the proxy).
+func Str(s fmt.Stringer) string { return fmt.Sprint(s) + "|" + s.String() }
+func Err(e error) string       { return fmt.Sprintf("%v|%s", e, e.Error()) }
